@@ -163,7 +163,16 @@ func registerIntrinsics(M map[string]Model) {
 	I("IsOwner", func(m *Machine, fr *Frame, a []Value) Value {
 		b := blockOf(m, a[0])
 		tag := m.mustGoString(a[1], "owner tag")
-		return m.ctx.Bool(b != nil && b.owner == tag)
+		if b == nil {
+			return m.ctx.False
+		}
+		if tag == "dec+" {
+			// memory a decode may hand out: allocated during the decode, already owned by the caller,
+			// or a pointer-free chunk of the pooled decoder's bump allocator (handed out once, see the span lemma)
+			ok := b.owner == "dec" || b.owner == "user" || (b.owner == "pool" && b.noscan && strings.HasPrefix(b.name, "mallocgc"))
+			return m.ctx.Bool(ok)
+		}
+		return m.ctx.Bool(b.owner == tag)
 	})
 	I("BlockID", func(m *Machine, fr *Frame, a []Value) Value {
 		b := blockOf(m, a[0])
